@@ -46,8 +46,10 @@ class Params:
 
     def give(self, name, conn):
         if name not in self.store:
-            w = self.e.sym(tuple(conn.weight.shape), torch.float32, "W" + name, lo=-3, hi=3)
-            b = self.e.sym(tuple(conn.bias.shape), torch.float32, "b" + name, lo=-3, hi=3) if conn.biased else None
+            # wide enough that a single presynaptic spike can drive a neuron over threshold within one step (otherwise spikes, and with
+            # them the feedback loop, are unreachable in the 2-5 steps explored: see the reachability witnesses)
+            w = self.e.sym(tuple(conn.weight.shape), torch.float32, "W" + name, lo=-30, hi=30)
+            b = self.e.sym(tuple(conn.bias.shape), torch.float32, "b" + name, lo=-30, hi=30) if conn.biased else None
             self.store[name] = (w, b)
         w, b = self.store[name]
         conn.weight = w.clone()
@@ -94,6 +96,8 @@ def h_serial(e, cfg):
         ref_c = c2(x)
         ref = n2(tf(ref_c) if tf else ref_c)
         e.oblige("serial:output-shape", tuple(out.shape) == tuple(n1.batchedshape), got=str(tuple(out.shape)), step=t)
+        from harness.common import witness_any
+        witness_any(e, "serial:a-neuron-spikes", out)
         e.oblige_eq("serial:output", out, e.read(ref), step=t)
         e.oblige_eq("serial:intermediate", inter, e.read(ref_c), step=t)
         compare_states(e, states(e, {"n": n1, "c": c1}), states(e, {"n": n2, "c": c2}), "serial:state", step=t)
@@ -150,6 +154,8 @@ def h_biclique(e, cfg):
             ref = refn[k](pre[k](ct) if k in pre else ct)
             e.oblige("biclique:output-shape", tuple(out[k].shape) == tuple(neus[k].batchedshape), got=str(tuple(out[k].shape)), neuron=k, step=t)
             if tuple(out[k].shape) == tuple(ref.shape):
+                from harness.common import witness_any
+                witness_any(e, "biclique:a-neuron-spikes", out[k])
                 e.oblige_eq("biclique:output", out[k], e.read(ref), neuron=k, step=t)
             e.oblige("biclique:state-shape", tuple(neus[k].voltage.shape) == tuple(neus[k].batchedshape), got=str(tuple(neus[k].voltage.shape)), step=t)
         if all(tuple(neus[k].voltage.shape) == tuple(refn[k].voltage.shape) for k in nn_):
@@ -180,6 +186,12 @@ def h_recurrent(e, cfg):
         fb_spk = R["nfb"](R["lat"](ff_spk))
         prev_fb = fb_spk
         e.oblige("recurrent:output-shapes", tuple(out[0].shape) == tuple(L["nff"].batchedshape) and tuple(out[1].shape) == tuple(L["nfb"].batchedshape), step=t)
+        if t >= 1:
+            fbv = e.read(fbs).reshape(-1)
+            anyfb = False
+            for v in fbv:
+                anyfb = T.bor(anyfb, T.tob(v))
+            e.witness("recurrent:a-feedback-spike-reaches-the-feedforward-group", anyfb)
         e.oblige_eq("recurrent:feedforward-spikes", out[0], e.read(ff_spk), step=t)
         e.oblige_eq("recurrent:feedback-spikes", out[1], e.read(fb_spk), step=t)
         compare_states(e, states(e, L), states(e, R), "recurrent:state", step=t)
@@ -232,8 +244,10 @@ def h_clear(e, cfg):
                 if hasattr(v, "threshold_adaptation"):
                     v.threshold_adaptation = adapt.clone()
         used.eval(); fresh.eval()      # adaptations are learned state: frozen while comparing replays
+    from harness.common import witness_any
     for j in range(cfg["k"]):
-        step(used, [spikes_in(e, B, nin, f"junk{j}{i}") for i in range(2)])
+        junk_out = flat(step(used, [spikes_in(e, B, nin, f"junk{j}{i}") for i in range(2)]))
+        witness_any(e, "clear:the-layer-was-active-before-clear", *junk_out)
     params_before = {k: e.read(v.weight).copy() for k, v in comps_u.items() if hasattr(v, "weight")}
     used.clear()
     for k, v in comps_u.items():
